@@ -189,7 +189,7 @@ static int32_t parsec_termdet_local_taskpool_set_nb_tasks(parsec_taskpool_t *tp,
             nbpa = parsec_atomic_fetch_dec_int32(&tp->nb_pending_actions) - 1;
             PARSEC_DEBUG_VERBOSE(10, parsec_debug_output, "TERMDET-LOCAL:\tTASKPOOL %p  NB_PA %d -> %d", tp, nbpa+1, nbpa);
         }
-        if( tp->tdm.monitor == PARSEC_TERMDET_LOCAL_BUSY && nbpa == 0 ) {
+        if( tp->tdm.monitor == PARSEC_TERMDET_LOCAL_BUSY && nbpa == 0 && tp->nb_pending_actions == 0 ) {
             PARSEC_DEBUG_VERBOSE(10, parsec_debug_output, "TERMDET-LOCAL:\tTASKPOOL %p nbpa == 0", tp);
             if( parsec_atomic_cas_ptr(&tp->tdm.monitor, PARSEC_TERMDET_LOCAL_BUSY, PARSEC_TERMDET_LOCAL_TERMINATING) ) {
                 parsec_termdet_local_termination_detected(tp);
@@ -207,7 +207,7 @@ static int32_t parsec_termdet_local_taskpool_set_runtime_actions(parsec_taskpool
     do {
         ov = tp->nb_pending_actions;
     } while(!parsec_atomic_cas_int32(&tp->nb_pending_actions, ov, v));
-    if( tp->tdm.monitor == PARSEC_TERMDET_LOCAL_BUSY && v == 0 ) {
+    if( tp->tdm.monitor == PARSEC_TERMDET_LOCAL_BUSY && v == 0 && tp->nb_pending_actions == 0 ) {
         if( parsec_atomic_cas_ptr(&tp->tdm.monitor, PARSEC_TERMDET_LOCAL_BUSY, PARSEC_TERMDET_LOCAL_TERMINATING) ) {
             parsec_termdet_local_termination_detected(tp);
         }
@@ -232,7 +232,7 @@ static int32_t parsec_termdet_local_taskpool_addto_nb_tasks(parsec_taskpool_t *t
         assert(nbpa >= 0);
         PARSEC_DEBUG_VERBOSE(10, parsec_debug_output, "TERMDET-LOCAL:\tTASKPOOL %p  NB_PA %d -> %d", tp, nbpa+1, nbpa);
     }
-    if( tp->tdm.monitor == PARSEC_TERMDET_LOCAL_BUSY && nbpa == 0 ) {
+    if( tp->tdm.monitor == PARSEC_TERMDET_LOCAL_BUSY && nbpa == 0 && tp->nb_pending_actions == 0 ) {
         if( parsec_atomic_cas_ptr(&tp->tdm.monitor, PARSEC_TERMDET_LOCAL_BUSY, PARSEC_TERMDET_LOCAL_TERMINATING) ) {
             parsec_termdet_local_termination_detected(tp);
        }
@@ -249,7 +249,7 @@ static int32_t parsec_termdet_local_taskpool_addto_runtime_actions(parsec_taskpo
         return tp->nb_pending_actions;
     ov = parsec_atomic_fetch_add_int32(&tp->nb_pending_actions, v);
     assert(ov+v >= 0);
-    if( tp->tdm.monitor == PARSEC_TERMDET_LOCAL_BUSY && ov+v == 0 ) {
+    if( tp->tdm.monitor == PARSEC_TERMDET_LOCAL_BUSY && ov+v == 0 && tp->nb_pending_actions == 0 ) {
         if( parsec_atomic_cas_ptr(&tp->tdm.monitor, PARSEC_TERMDET_LOCAL_BUSY, PARSEC_TERMDET_LOCAL_TERMINATING) ) {
             parsec_termdet_local_termination_detected(tp);
         }
